@@ -10,7 +10,7 @@ import casadi as ca
 import mpmath as mp
 import z3
 
-from ..harness import Harness, Claim, HarnessError
+from ..harness import Harness, Claim, HarnessError, StructureChanged
 from ..val import Val
 from .. import val as V
 from ..enc import Ctx
@@ -100,7 +100,7 @@ class ThrustFrame(Harness):
                 f = r.derive_outerloop_control()["se23_position_control"]
         rec = sp.rec
         if len(rec["quat_from_matrix"]) != 1 or len(rec["norm_2"]) < 3 or len(rec["cross"]) < 2:
-            raise HarnessError(f"{self.which}: unexpected structure (norm_2 x{len(rec['norm_2'])}, cross x{len(rec['cross'])}, "
+            raise StructureChanged(f"{self.which}: unexpected structure (norm_2 x{len(rec['norm_2'])}, cross x{len(rec['cross'])}, "
                                f"from_Matrix x{len(rec['quat_from_matrix'])})")
         Rd = rec["quat_from_matrix"][0]
         T = rec["norm_2"][-2]
@@ -169,15 +169,15 @@ def _derive_flat(which):
     so = f(*si)
     names = [f.name_in(i) for i in range(f.n_in())]
     if names[:7] != ["psi", "psi_dot", "psi_ddot", "v_e", "a_e", "j_e", "s_e"]:
-        raise HarnessError(f"{which}: signature changed: {names}")
+        raise StructureChanged(f"{which}: signature changed: {names}")
     if which == "f_ref":
         if len(rec["dcm_from_matrix"]) < 1:
-            raise HarnessError("f_ref: C_be is not passed through SO3Dcm.from_Matrix")
+            raise StructureChanged("f_ref: C_be is not passed through SO3Dcm.from_Matrix")
         C = rec["dcm_from_matrix"][0]
     else:
         C = so[1]
     if len(rec["norm_2"]) < 2:
-        raise HarnessError(f"{which}: expected norm_2 of the thrust vector and of y_b")
+        raise StructureChanged(f"{which}: expected norm_2 of the thrust vector and of y_b")
     return f, si, so, C, rec["norm_2"][0], rec["norm_2"][1], consts
 
 
@@ -392,7 +392,7 @@ class EulerSetpoint(Harness):
                 import cyecca.models.bezier as b
                 f = b.derive_eulerB321_to_quat()["eulerB321_to_quat"]
         if len(sp.rec["quat_from_matrix"]) != 1:
-            raise HarnessError(f"{self.which}: expected one quaternion extraction")
+            raise StructureChanged(f"{self.which}: expected one quaternion extraction")
         si = f.sx_in()
         self.n_in = [s.numel() for s in si]
         return ca.Function(self.which + "_obs", si, [sp.rec["quat_from_matrix"][0]])
